@@ -308,6 +308,7 @@ func runSchedCheck(c *vk.Ctx, scs, all []*schedScenario, oracle schedOracle) {
 		return
 	}
 	fmt.Println("INFO " + msg)
+	fmt.Printf("INFO vclock fast goroutine-id path: %v\n", vclock.FastGoid())
 	c.Rule("schedules = every interleaving of the threads' datastore operations (each Get/List/Create/Update/Delete of the real ipamClient on casstore is a scheduling point) within the preemption bound, times every placement of <= fault-budget faults {CAS conflict, client killed before the write, client killed after the write} at write operations; non-trivial = schedule with >=1 preemption or >=1 injected fault")
 	c.Assume("datastore = casstore: linearizable single-key compare-and-swap store with the etcd/Kubernetes backends' error semantics; values cross the boundary as JSON (second-granular timestamps)")
 	c.Assume("logical per-client clocks (1 ms per read, skew < 1 ms); reads of Node and IPAMConfig objects are not scheduling points (nobody writes them in these scenarios)")
